@@ -259,7 +259,7 @@ pub enum Ev {
     Spawn { gen: usize, program: String, args: Vec<String>, stdin: String, stdout: String, stderr: String, result: i32, label: String },
     /// compiler wrote to a generator's stdin: requested, accepted (or -errno), digest of all bytes accepted so far
     StdinWrite { gen: usize, requested: usize, result: i64, total: usize, fault: String },
-    StdinClose { gen: usize, total: usize, hex: String },
+    StdinClose { gen: usize, total: usize, hex: String, #[serde(default)] at_exit: bool },
     /// the compiler blocked in this operation and generators had to run
     Blocked { gen: usize, op: String },
     /// a generator step (only state changes are logged)
@@ -273,7 +273,7 @@ pub enum Ev {
     Hang { detail: String },
     Budget { steps: u64 },
     /// process ends normally (atexit); unreaped = generators spawned but never waited for
-    End { steps: u64, unreaped: Vec<usize> },
+    End { steps: u64, unreaped: Vec<usize>, #[serde(default)] max_threads: usize },
 }
 
 pub const EXIT_HANG: i32 = 97;
